@@ -392,7 +392,8 @@ def _main2(a, pid, chk, mutations, seed, t0):
                         'replay': path})
     cov = {
         'states': stats.paths,
-        'transitions': stats.decisions + stats.concretizations,
+        'transitions': stats.decisions + stats.concretizations + stats.discharged + stats.violated,
+        'branch_decisions': stats.decisions + stats.concretizations,
         'traces_validated_against_impl': int(val.get('agree', 0)),
         'samples': samples,
         'exhaustive': not truncated and not inconc,
@@ -415,7 +416,8 @@ def _main2(a, pid, chk, mutations, seed, t0):
         'witness_validation': {k: v for k, v in val.items() if k != 'disagree'},
         'known_findings_seen': sorted(known_hits),
         'rule': 'one state = one feasible execution path of the real source under the stated bounds; '
-                'one transition = one branch/value decision decided by the solver',
+                'one transition = one solver verdict that extended or closed a path (branch feasibility decision, value '
+                'enumeration, obligation verdict)',
         'exit_code': rc,
     }
     ev = {
